@@ -25,6 +25,7 @@ from . import interp as _interp_mod
 from .interp import Interp, LoopSpec, NS, repo_root
 
 HARNESSES = {}
+_LEMMAS = set()
 _INTERP = None
 _LOOP_SPECS = {}
 
@@ -69,8 +70,8 @@ def harness(prop, cases=None, native_inputs=None, max_paths=4000, name=None, gro
     return deco
 
 
-def loop_spec(func_key, ordinal, inv=None, modifies=(), types=None):
-    _LOOP_SPECS[(func_key, ordinal)] = LoopSpec(inv, modifies, types)
+def loop_spec(func_key, ordinal, inv=None, modifies=(), types=None, at_head=None):
+    _LOOP_SPECS[(func_key, ordinal)] = LoopSpec(inv, modifies, types, at_head=at_head)
 
 
 # ---------------------------------------------------------------------------- inputs
@@ -274,14 +275,20 @@ class Outcome:
 def call(f, *args, **kwargs):
     """run the function under contract; exceptions it raises become an Outcome."""
     try:
-        return Outcome(value=f(*args, **kwargs))
+        v = f(*args, **kwargs)
+        if CTX.mode != "sym":
+            CTX.outcomes.append("return")
+        return Outcome(value=v)
     except PyRaise as p:
+        if CTX.mode != "sym":
+            CTX.outcomes.append(type(p.exc).__name__)
         return Outcome(exc=type(p.exc).__name__, excobj=p.exc)
     except (PathEnd, OutOfSubset):
         raise
     except Exception as e:
         if modelled():
             raise
+        CTX.outcomes.append(type(e).__name__)
         return Outcome(exc=type(e).__name__, excobj=e)
 
 
@@ -378,7 +385,7 @@ def forall_range(n, pred, hint="k"):
 def lemma(harness_name, cond):
     """use an instance of a lemma that is proved by its own harness (dependency recorded)."""
     if CTX.mode == "sym":
-        CTX.ghost.setdefault("lemmas_used", set()).add(harness_name)
+        _LEMMAS.add(harness_name)
         CTX.assume(cond.t if isinstance(cond, SBool) else cond)
 
 
@@ -438,6 +445,7 @@ def run_sym(h, case_d, timeout_ms=20000, max_paths=None):
     reset_interp()
     CTX.reset_all()
     CTX.start_sym(timeout_ms)
+    _LEMMAS.clear()
     res = HarnessResult(h.prop, h.name, repr(Case(case_d)))
     t0 = time.time()
     _CUR["prefix"] = "%s/%s[%s]/" % (h.prop, h.name, repr(Case(case_d)))
@@ -487,6 +495,7 @@ def run_sym(h, case_d, timeout_ms=20000, max_paths=None):
     for ob in CTX.obligs:
         res.obligs.append(ob.as_dict() | ({"smt2": ob.smt2} if ob.smt2 else {}))
     res.functions = dict(interp().functions_seen)
+    res.lemmas = sorted(_LEMMAS)
     res.secs = time.time() - t0
     return res
 
